@@ -41,6 +41,29 @@ func (fe *FuncEnc) freshResults(st *State, sig *types.Signature, hint string) []
 	return out
 }
 
+// havocGlobalGhosts: a callee without a write frame may change the global ghost
+// variables (through its own ghost assignments or those of anything it calls).
+func (fe *FuncEnc) havocGlobalGhosts(st *State) {
+	fe.havocGlobalGhostsOf(st, func(string) bool { return true })
+}
+
+func (fe *FuncEnc) havocGlobalGhostsOf(st *State, may func(name string) bool) {
+	for _, key := range sortedGhostKeys(fe.eng.cs.Ghosts) {
+		g := fe.eng.cs.Ghosts[key]
+		if g.Type != "$global" || !may(g.Name) {
+			continue
+		}
+		hv := ghostVar(g)
+		srt := arrSort(ghostSort(g))
+		if _, used := fe.heapSorts[hv]; !used {
+			continue
+		}
+		fe.heapGet(st, hv, srt)
+		st.heap[hv] = fe.sc.declare(hv, srt)
+		fe.noteWrite(hv)
+	}
+}
+
 func sortedGhostKeys(m map[string]*GhostField) []string {
 	var ks []string
 	for k := range m {
@@ -223,6 +246,13 @@ func (fe *FuncEnc) callCommon(v ssa.Value, c *ssa.CallCommon, st *State, args []
 			roots = append(roots, a.Type())
 		}
 		fe.havocReachable(st, "call to "+calleeName+" (no contract)", roots)
+		if callee != nil {
+			fe.havocGlobalGhostsOf(st, func(name string) bool { return fe.eng.mayWriteGhost(callee, name) })
+		} else if c.IsInvoke() {
+			fe.havocGlobalGhostsOf(st, func(name string) bool { return fe.eng.invokeMayWriteGhost(c, name, map[*ssa.Function]bool{}) })
+		} else {
+			fe.havocGlobalGhostsOf(st, func(name string) bool { return fe.eng.funcValueMayWriteGhost(c, name, map[*ssa.Function]bool{}) })
+		}
 		res := fe.freshResults(st, sig, hint)
 		fe.setResults(v, sig, res)
 		return
@@ -316,21 +346,10 @@ func (fe *FuncEnc) applyContract(v ssa.Value, contract *FuncContract, sig *types
 			}
 		}
 		fe.havocReachable(st, "call to "+short+" (contract without assigns)", roots)
-		// no write frame: the global ghost variables may change as well (the
-		// callee's own ghost assignments, or those of anything it calls)
-		for _, key := range sortedGhostKeys(fe.eng.cs.Ghosts) {
-			g := fe.eng.cs.Ghosts[key]
-			if g.Type != "$global" {
-				continue
-			}
-			hv := ghostVar(g)
-			srt := arrSort(ghostSort(g))
-			if _, used := fe.heapSorts[hv]; !used {
-				continue
-			}
-			fe.heapGet(st, hv, srt)
-			st.heap[hv] = fe.sc.declare(hv, srt)
-			fe.noteWrite(hv)
+		if callee != nil && len(callee.Blocks) > 0 {
+			fe.havocGlobalGhostsOf(st, func(name string) bool { return fe.eng.mayWriteGhost(callee, name) })
+		} else {
+			fe.havocGlobalGhosts(st)
 		}
 	} else if !contract.Pure {
 		envPre := fe.calleeEnv(pre, contract, callee, sig, paramNames, args)
